@@ -293,7 +293,7 @@ def run(chk):
            "with a 'Cards' level the contests of all cards are concatenated in order; otherwise the version's own 'Contests' are used; "
            "every contest is then processed", node=kloops[0] if kloops else L, strength="N")
     # R6: the directory import is the per-file import applied to every export file with the same options
-    aud.same_name_arguments(chk, "C19.R6", DOM, "Dominion.read_cvrs_directory", "Dominion.read_cvrs", "the directory reader delegates per file")
+    aud.same_name_arguments(chk, "C19.R6", DOM, "Dominion.read_cvrs_directory", "Dominion.read_cvrs", "the directory reader delegates per file", strict=True)
     rd = chk.fn(DOM, "Dominion.read_cvrs_directory")
     loops = [l for l in rd.body if isinstance(l, ast.For)]
     ext = [c for c in ast.walk(rd) if isinstance(c, ast.Call) and isinstance(c.func, ast.Attribute) and c.func.attr in ("extend", "append")]
